@@ -102,10 +102,14 @@ impl State {
             // count would then either drop that delta for an idle counter, or never send the final zero value.
             if value == 0 {
                 if flush_state.is_counter_idle(&key) {
+                    #[cfg(metrics_verif)]
+                    metrics::__verif::probe("dogstatsd.idle_skip");
                     continue;
                 }
 
                 flush_state.mark_counter_as_idle(key.clone());
+                #[cfg(metrics_verif)]
+                metrics::__verif::probe("dogstatsd.idle_zero_sent");
             } else {
                 flush_state.clear_counter_idle(&key);
             }
